@@ -21,6 +21,24 @@ ASSUMPTIONS = ["protobuf message equality (==) is the comparison; the top module
 TRUSTED = ["protobuf equality"]
 
 
+_LAYOUT = {}
+
+
+def ports_first():
+    """Which layout the exporter at hand gives the signal list of a module: the ports' signals before the internal ones, or after
+    (the property fixes neither; the module-level model has a theorem for each — `module_roundtrip`, `module_roundtrip_ports_first`)."""
+    if "pf" not in _LAYOUT:
+        m = h.Module(name="LayoutProbe")
+        m.i1 = h.Signal()
+        m.p1 = h.Port()
+        m.i2 = h.Signal()
+        m.r = h.R(r=1)(p=m.i1, n=m.p1)
+        m.r2 = h.R(r=1)(p=m.i2, n=m.p1)
+        names = [s.name for s in h.to_proto(m).modules[0].signals]
+        _LAYOUT["pf"] = names.index("p1") < names.index("i1")
+    return _LAYOUT["pf"]
+
+
 def ns_get(node, part):
     """A child of a namespace from_proto built, by its name — read from the namespace's own entries, so that a name spelled like
     an attribute every object has (`__dict__`, `__class__`) is still the child."""
@@ -133,7 +151,7 @@ class ImportStream(common.Stream):
         cases = list(cases)
         impls = common.pmap(impl_import, cases, chunk=self.chunk)
         idx = [k for k, im in enumerate(impls) if "pkg" in im]
-        outs = ctx.drv.run([{"prop": "RT", "op": "package", "pkg": impls[k]["pkg"]} for k in idx])
+        outs = ctx.drv.run([{"prop": "RT", "op": "package", "pkg": impls[k]["pkg"], "ports_first": ports_first()} for k in idx])
         models = dict(zip(idx, outs))
         for k, (c, im) in enumerate(zip(cases, impls)):
             rep.count(self.name, json.dumps(c, default=str), nontrivial="pkg" in im)
@@ -280,7 +298,7 @@ def run(ctx):
     labelled += [(f"example:{i}", p, p.modules[-1].name) for i, p in enumerate(ex_pkgs) if p.modules]
     # the module-level model on these packages too
     pj = [observe.pkg_json(pkg) for _, pkg, _ in labelled]
-    mos = ctx.drv.run([{"prop": "RT", "op": "package", "pkg": j} for j in pj])
+    mos = ctx.drv.run([{"prop": "RT", "op": "package", "pkg": j, "ports_first": ports_first()} for j in pj])
     for (label, pkg, top), j, mo in zip(labelled, pj, mos):
         try:
             im = {"pkg": j, "imported": imported_json(pkg)}
